@@ -501,6 +501,57 @@ fn run_conv(out: &mut Out, case: &Value) {
     out.emit(json!({"ev": "convend", "total": total}));
 }
 
+/// Runs one case in a process of its own (an input that may take the whole process down: stack
+/// exhaustion, abort) and copies the events it wrote.  If the process died before the case was
+/// finished, that is recorded as a panic of the call that was in progress.
+fn run_isolated(out: &mut Out, case: &Value) {
+    let dir = std::path::PathBuf::from(std::env::var("VH_TMP").unwrap_or_else(|_| "/verif/work/files".to_string()));
+    let _ = std::fs::create_dir_all(&dir);
+    let base = format!("iso{}_{}", std::process::id(), case["id"].as_u64().unwrap_or(0));
+    let cpath = dir.join(format!("{base}.cases.ndjson"));
+    let tpath = dir.join(format!("{base}.trace.ndjson"));
+    std::fs::write(&cpath, format!("{}\n", case)).expect("write isolated case");
+    let st = std::env::current_exe().and_then(|exe| {
+        std::process::Command::new(exe)
+            .arg("serve").arg(&cpath).arg(&tpath)
+            .env("VH_CHILD", "1")
+            .stdout(std::process::Stdio::null())
+            .stderr(std::process::Stdio::null())
+            .status()
+    });
+    let (mut saw_reset, mut saw_req, mut saw_head, mut saw_body) = (false, false, false, false);
+    if let Ok(text) = std::fs::read_to_string(&tpath) {
+        for line in text.lines() {
+            if let Ok(v) = serde_json::from_str::<Value>(line) {
+                match v["ev"].as_str().unwrap_or("") {
+                    "reset" => saw_reset = true,
+                    "req" => saw_req = true,
+                    "head" if v["run"] == "main" => saw_head = true,
+                    "body" if v["run"] == "main" => saw_body = true,
+                    _ => {}
+                }
+                out.emit(v);
+            }
+        }
+    }
+    let ok = matches!(&st, Ok(s) if s.success());
+    if !ok && !saw_body {
+        let msg = format!("the process running this case died ({})", match &st { Ok(s) => s.to_string(), Err(e) => e.to_string() });
+        if !saw_reset {
+            out.emit(json!({"ev": "reset", "case": case["id"]}));
+        }
+        if !saw_head {
+            let _ = saw_req;
+            out.emit(json!({"ev": "head", "run": "main", "method": case["method"], "panic": true, "msg": msg, "echo": [], "env": []}));
+        } else {
+            out.emit(json!({"ev": "poll", "res": "panic", "where": "abort", "msg": msg, "n": 0, "nexts": [],
+                            "lo": limbs(0), "up": none(), "eos": false, "errk": "", "env": [], "ftrunc": -1}));
+        }
+    }
+    let _ = std::fs::remove_file(&cpath);
+    let _ = std::fs::remove_file(&tpath);
+}
+
 pub fn run(cases_path: &str, out_path: &str) {
     silence_panics();
     let cases = read_cases(cases_path);
@@ -517,6 +568,10 @@ pub fn run(cases_path: &str, out_path: &str) {
             if let Some(ms) = ps.get("ms").and_then(|m| m.as_u64()) {
                 std::thread::sleep(std::time::Duration::from_millis(ms));
             }
+        }
+        if case.get("isolate").and_then(|b| b.as_bool()).unwrap_or(false) && std::env::var("VH_CHILD").is_err() {
+            run_isolated(&mut out, case);
+            continue;
         }
         out.emit(json!({"ev": "reset", "case": case["id"]}));
         if case.get("conv").is_some() {
